@@ -58,5 +58,8 @@ typedef double *double_iter;                 /* std::vector<double>::iterator */
    assigned; functional clauses are conditioned on it, safety clauses are not. */
 extern bool ghost_ticks_ascending;
 
+/* replay witness mirrors (vlib/replay.py) */
+extern double g_w0, g_w1, g_w2, g_w3, g_wp; extern size_t g_wn; extern int g_wm;
+
 #define NIX_THROWS /* marker read by vlib/unit.py: the callee may set nix_exc */
 #endif
